@@ -597,6 +597,65 @@ def stage_explore(ctx):
                      ", ".join("%s %.2g" % (k, v[0]) for k, v in sorted(worst.items())))
 
 
+def history_case(ctx, case):
+    """one theory OBJECT of each kind used for a sequence of calculations (focus scan: same detector points and
+    in-plane position, only z changes; then other points; then a repeat of the first step), each step compared with
+    a fresh object of the same kind; and two spheres stacked on the optical axis in one call against the sum of the
+    two single-sphere fields.  The value of a calculation must not depend on what the object computed before."""
+    import numpy as np
+    from holopy.scattering import Sphere, Spheres, Mie, MieLens
+    from holopy.scattering.theory import Lens
+    from holopy.scattering.theory.mielens import AberratedMieLens
+    la, n, r = case["la"], case["m"] * N_MED, case["x"] / K
+    pol = (math.cos(case["g"]), math.sin(case["g"]))
+    krho, phi = np.array(case["krho"]), np.array(case["phi"])
+    x, y = krho * np.cos(phi) / K, krho * np.sin(phi) / K
+    makers = {"mielens": lambda: MieLens(lens_angle=la),
+              "amielens": lambda: AberratedMieLens([0.5, -0.25], lens_angle=la),
+              "lens": lambda: Lens(la, Mie(False, False), quad_npts_theta=case["nq"], quad_npts_phi=case["nq"])}
+    steps = [("z", z) for z in case["zs"]] + [("pts", case["zs"][0]), ("z", case["zs"][0])]
+    for name, mk in makers.items():
+        shared = mk()
+        worst, wstep = 0.0, None
+        for i, (kind, z) in enumerate(steps):
+            xs, ys = (x, y) if kind == "z" else (x[::-1] * 0.5, y[::-1] * 0.5)
+            sph = Sphere(n=n, r=r, center=(case["cx"], case["cy"], z))
+            a = field(shared, sph, xs + case["cx"], ys + case["cy"], pol)
+            b = field(mk(), sph, xs + case["cx"], ys + case["cy"], pol)
+            d = float(np.abs(a - b).max()) / max(1.0, float(np.abs(b).max()))
+            if d > worst:
+                worst, wstep = d, i
+        ctx.explored += 1
+        ctx.count("history:%s" % name)
+        ctx.nontriv(("history", name, round(case["la"], 2), len(steps)))
+        if not worst <= 1e-12:
+            ctx.violation("history:%s" % name, "a %s object re-used for a sequence of calculations (same detector points, particle "
+                          "moved along z only) returns a field that differs from a fresh object's at step %d (relative deviation %.3g)"
+                          % (name, wstep, worst), dict(kind="history", theory=name, case=case, step=wstep, deviation=worst))
+        # two spheres on the axis, one call
+        s1 = Sphere(n=n, r=r, center=(case["cx"], case["cy"], case["zs"][0]))
+        s2 = Sphere(n=n, r=r * 0.8, center=(case["cx"], case["cy"], case["zs"][0] + 4 * r + 1.0))
+        both = field(mk(), Spheres([s1, s2]), x + case["cx"], y + case["cy"], pol)
+        parts = field(mk(), s1, x + case["cx"], y + case["cy"], pol) + field(mk(), s2, x + case["cx"], y + case["cy"], pol)
+        d = float(np.abs(both - parts).max()) / max(1.0, float(np.abs(parts).max()))
+        ctx.explored += 1
+        if not d <= 1e-12:
+            ctx.violation("history:%s:stacked" % name, "%s: two spheres stacked on the optical axis in one call differ from the sum of "
+                          "the two single-sphere fields (relative deviation %.3g)" % (name, d),
+                          dict(kind="history", theory=name, case=case, step="stacked", deviation=d))
+
+
+def stage_history(ctx):
+    rng = ctx.subrng("history")
+    for kcase in range(ctx.n(3, 16)):
+        z0 = rng.choice([1, -1]) * rng.uniform(1.0, 8.0)
+        case = dict(m=rng.uniform(1.1, 1.3), x=rng.uniform(1.0, 8.0), la=rng.uniform(0.3, 1.1), g=rng.uniform(-math.pi, math.pi),
+                    krho=[rng.uniform(0, 40) for _ in range(6)], phi=[rng.uniform(0, 2 * math.pi) for _ in range(6)],
+                    cx=rng.uniform(-2, 2), cy=rng.uniform(-2, 2), nq=rng.choice([40, 60]),
+                    zs=[z0, z0 + rng.uniform(0.5, 3.0), -z0, z0 - rng.uniform(0.5, 3.0)])
+        history_case(ctx, case)
+
+
 def stage_cutoff(ctx):
     """documented truncation: at default order MieLens is exactly 0 at and beyond krho = 3.9*100; with the order raised so
     that the same points lie below the cut-off (and the quadrature is converged) it agrees with Lens again"""
@@ -686,7 +745,9 @@ def run(ctx):
         "interpolation True / False / 'check' and other window sizes / degrees (degree >= window/2 + 20) agree: 1e-8",
         "AberratedMieLens with zero coefficients (scalar, lists of length 1-5, int zeros) equals MieLens bit-close: 1e-14",
         "beyond the default cut-off: exactly 0 at default order; agreement with Lens once the order is raised",
-        "independence of the numexpr acceleration: NOT exercisable (numexpr is not installed in this image)"]
+        "independence of the numexpr acceleration: NOT exercisable (numexpr is not installed in this image)",
+        "history independence: one MieLens / AberratedMieLens / Lens object re-used over a focus scan and other point sets equals a "
+        "fresh object at every step (1e-12); two spheres stacked on the axis = sum of the single-sphere fields"]
     ctx.trusted += [
         "oracle: numpy exp/cos/sin/sqrt/arctan2/arccos, scipy j0, mielensfunctions.j2 values at the inputs (leaves of the model)",
         "oracle: Gauss-Legendre nodes/weights (numpy leggauss via the modules' gauss_legendre_pts_wts), equispaced azimuth nodes",
@@ -702,6 +763,7 @@ def run(ctx):
     guarded(ctx, "calculator", stage_calculator, ctx)
     guarded(ctx, "interp", stage_interp, ctx)
     guarded(ctx, "explore", stage_explore, ctx)
+    guarded(ctx, "history", stage_history, ctx)
     guarded(ctx, "cutoff", stage_cutoff, ctx)
     guarded(ctx, "refusals", stage_refusals, ctx)
 
@@ -711,7 +773,9 @@ def replay(ctx, data):
     boot.boot()
     warnings.simplefilter("ignore")
     d = data["data"]
-    if d.get("kind") == "explore" and "case" in d:
+    if d.get("kind") == "history" and "case" in d:
+        history_case(ctx, d["case"])
+    elif d.get("kind") == "explore" and "case" in d:
         out = explore_case(ctx, d["case"], record=False)
         print("replay: deviations " + ", ".join("%s=%.3g" % kv for kv in sorted(out.items())))
     else:
